@@ -531,3 +531,33 @@ func constantInt64(c *types.Const) (int64, bool) {
 	}
 	return constant.Int64Val(c.Val())
 }
+
+// retResults returns the values a Return yields, looking through the spill go/ssa emits in functions with
+// defers (results are stored to allocs before `rundefers` and reloaded for the return).
+func retResults(ret *ssa.Return) []ssa.Value {
+	out := make([]ssa.Value, len(ret.Results))
+	for i, v := range ret.Results {
+		out[i] = v
+		ld, ok := v.(*ssa.UnOp)
+		if !ok || ld.Op != token.MUL || ld.Block() != ret.Block() {
+			continue
+		}
+		al, ok := ld.X.(*ssa.Alloc)
+		if !ok {
+			continue
+		}
+		var last *ssa.Store
+		for _, in := range ret.Block().Instrs {
+			if in == ssa.Instruction(ld) {
+				break
+			}
+			if st, ok := in.(*ssa.Store); ok && st.Addr == ssa.Value(al) {
+				last = st
+			}
+		}
+		if last != nil {
+			out[i] = last.Val
+		}
+	}
+	return out
+}
